@@ -9,7 +9,17 @@ sys.path.insert(0, os.path.join(os.path.dirname(__file__), ".."))
 from cv import bfsrun, graphs  # noqa: E402
 from cv.core import VERIF, Check  # noqa: E402
 
-THEOREMS = []
+THEOREMS = [
+    "Cv.bfs_sizes_prefix",
+    "Cv.bfs_sizes_pos",
+    "Cv.bfs_completed_sound",
+    "Cv.bfs_stopped_by_rule",
+    "Cv.bfs_no_early_stop",
+    "Cv.bfs_stored_sound",
+    "Cv.bfs_stored_iff",
+    "Cv.bfs_hashes_rule",
+    "Cv.bfs_callback_trace",
+]
 
 
 def stop_fires(stop, i, layer):
